@@ -26,10 +26,14 @@ def make_case(rng, idx):
     item, derived = G.gen_type_item(rng)
     elems, shared = G.gen_trait_args(rng, derived)
     erring = False
+    late = False
     if mode < 0.30:
         # provoke an error in the derivation
         erring = True
         e = rng.randrange(7)
+        # e in (2, 3, 4, 6): the argument list is fine (so the derived traits are known) and the error comes from a helper
+        # attribute or from building an impl; e in (0, 1, 5): the argument list itself is rejected
+        late = e in (2, 3, 4, 6)
         if e == 0:
             elems.insert(rng.randrange(len(elems) + 1), "NoSuchTrait")
         elif e == 1:
@@ -74,12 +78,12 @@ def make_case(rng, idx):
     text = G.render(item)
     if G.dontcare_helper(G.all_attrs(item), derived):
         return None
-    if erring:
+    if erring and not late:
         req = {"id": idx, "entry": "attr", "attr": attr, "item": text, "expect_item": text, "strip": HELPER_NAMES}
     else:
         req = {"id": idx, "entry": "attr", "attr": attr, "item": text,
                "expect_item": G.render(item, G.keep_for_derived(derived))}
-    return req, {"kind": item["kind"], "derived": derived, "erring": erring}
+    return req, {"kind": item["kind"], "derived": derived, "erring": erring, "late": late}
 
 
 def judge(o, meta):
@@ -180,10 +184,11 @@ def run(rep, tier, rng):
                 "serde-like, path and name=value attributes), all visibility forms, generics/where-clauses, discriminants, "
                 "helper attributes of derived and of not-derived traits on type/variant/field; ~30% with a provoked "
                 "derivation error. Oracle: first emitted item == input minus derive_ex attributes minus helper attributes "
-                "that the doc table assigns to a derived trait (token equality through one lexer); on erroring inputs the "
+                "that the doc table assigns to a derived trait (token equality through one lexer) - also when the derivation "
+                "fails after the argument list was accepted; when the argument list itself is rejected the "
                 "item must survive modulo helper-named attributes. distinct_nontrivial = distinct (item kind, set of "
                 "attribute names expected to survive, errored?) classes.")
-    rep.assumptions = ["which helper attributes survive an *erroring* expansion is unspecified and not judged",
+    rep.assumptions = ["which helper attributes survive when the derive_ex argument list itself is rejected (the derived traits are then unknown) is unspecified and not judged",
                        "partial_eq with Eq-but-not-PartialEq derived is not generated (doc table vs trybuild disagree)"]
 
 
